@@ -203,7 +203,7 @@ fn linear_all(ctx: &Ctx, sink: &mut Sink) {
     lin(sink, 111, catch(|| JulianDay::from_julian_day(j as f64 - 0.5)), da, db, |x, n| x.next(n as isize), |x| vec![jdn_of(x.get_day()).0]);
     // lunar / sexagenary days and weeks away from the reform seams and the range edges
     // after AD 244: the reform seams of AD 9-25 and 236-240 are C02/C03 findings, not stepping defects
-    let jl = rng.range(1810500 + 400, 5373484 - 4000);
+    let jl = rng.range(1815400, 5373484 - 4000);
     lin(sink, 112, day_of(jl).and_then(|d| catch_iso(|| d.get_lunar_day())), da, db, |x, n| x.next(n as isize), |x| vec![jdn(&x.get_solar_day())]);
     lin(sink, 113, day_of(jl).and_then(|d| catch_iso(|| d.get_sixty_cycle_day())), da, db, |x, n| x.next(n as isize), |x| vec![jdn(&x.get_solar_day())]);
     let st = rng.range(0, 6);
@@ -217,7 +217,7 @@ fn linear_all(ctx: &Ctx, sink: &mut Sink) {
       ws.into_iter().find(|w| w.get_days().iter().any(|x| *x == l)).unwrap()
     })), wa, wb, |x: &LunarWeek, n| x.next(n as isize), |x| vec![jdn(&x.get_first_day().get_solar_day())]);
     // lunar months: ordinal through the month walk is covered by C03; here only the group laws
-    let ly = rng.range(245, 9960);
+    let ly = rng.range(250, 9960);
     let lm = rng.range(1, 12);
     let (ma, mb) = (pick_n(&mut rng, 40), pick_n(&mut rng, 40));
     lin(sink, 116, catch_iso(|| LunarMonth::from_ym(ly as isize, lm as isize)), ma, mb, |x, n| x.next(n as isize),
